@@ -113,6 +113,14 @@ TRANSPARENT = [
     ('option::Option::<T>::expect', 0, 'unwrap'),
     ('option::Option::<T>::unwrap_or', 0, 'unwrap_or'),
     ('result::Result::<T, E>::unwrap_or', 0, 'unwrap_or'),
+    ('option::Option::<T>::map', 0, 'map'),
+    ('result::Result::<T, E>::map', 0, 'map'),
+    ('::from_le_bytes', 0, 'from_le'),
+    ('::from_be_bytes', 0, 'from_be'),
+    ('::from_ne_bytes', 0, 'from_ne'),
+    ('::to_le_bytes', 0, 'to_le'),
+    ('::to_be_bytes', 0, 'to_be'),
+    ('::to_ne_bytes', 0, 'to_ne'),
     ('slice::<impl [T]>::len', 0, 'len'),
     ('str::<impl str>::len', 0, 'len'),
     ('vec::Vec::<T, A>::len', 0, 'len'),
